@@ -27,7 +27,7 @@ import (
 
 // annotation-only wrapper kinds (leave Error() and the root cause unchanged)
 var annotOnly = map[string]bool{"withstack": true, "wrapempty": true, "hint": true, "detail": true, "safedetails": true, "telemetry": true,
-	"domain": true, "domainnone": true, "issuelink": true, "tags": true, "tagsafe": true, "hintf": true, "detailf": true, "issuelinkd": true, "issuelinku": true, "telemetry0": true, "combine": true, "assertion": true, "mark": true, "markempty": true, "secondary": true, "http": true, "grpc": true}
+	"domain": true, "domainnone": true, "domainraw": true, "withstackdeep": true, "issuelink": true, "tags": true, "tagsafe": true, "hintf": true, "detailf": true, "issuelinkd": true, "issuelinku": true, "telemetry0": true, "combine": true, "assertion": true, "mark": true, "markempty": true, "secondary": true, "http": true, "grpc": true}
 
 func init() {
 	core.Register(&core.Prop{
@@ -252,6 +252,16 @@ func nilSweep(c *core.Ctx) {
 		}
 	}
 	ref := goErr.New("r")
+	// annotations with nothing to annotate return the error itself
+	if got := errors.WithContextTags(ref, context.Background()); got != ref {
+		c.Violate("identity/WithContextTags(no tags)", "WithContextTags with a context that carries no tags does not return the error itself", fmt.Sprintf("%T", got))
+	}
+	if got := errors.WithSafeDetails(ref, ""); got != ref {
+		c.Violate("identity/WithSafeDetails(empty)", "WithSafeDetails without format and arguments does not return the error itself", fmt.Sprintf("%T", got))
+	}
+	if got := extgrpc.GetGrpcCode(nil); got != codes.OK {
+		c.Violate("nil/GetGrpcCode", "GetGrpcCode(nil) is not OK", got.String())
+	}
 	if got := errors.CombineErrors(nil, ref); got != ref {
 		c.Violate("nil/CombineErrors(nil,e)", "CombineErrors(nil, e) != e", fmt.Sprintf("%T", got))
 	}
